@@ -127,7 +127,8 @@ class Runner:
         # retry timeouts / OOM once, alone
         for h in order:
             r = self.results[h.fn]
-            if r["status"] in ("TIMEOUT", "OOM") and h.role == "deciding":
+            # a timeout may be due to contention with sibling processes; an out-of-memory run is deterministic
+            if r["status"] == "TIMEOUT" and h.role == "deciding":
                 log("retrying %s alone (%s)" % (h.fn, r["status"]))
                 self.run_one(h, 0, tag=".retry", timeout=int(h.timeout * 1.5))
 
